@@ -503,11 +503,19 @@ def rule_r3(F, rep):
             for kind, marks, ret in outs:
                 d = dict(ret or ())
                 top = d.get("0")
-                r.add(top[2] if isinstance(top, tuple) and top[0] == "var" else "?")
+                # `filter_map(.. then_some ..)` answers Some/None, `filter(..)` answers a bool
+                if isinstance(top, tuple) and top[0] == "var":
+                    r.add({"Some": "keep", "None": "drop"}.get(top[2], top[2]))
+                elif top in (0, 1) and w.body.local_ty(0)["s"] == "bool":
+                    r.add("keep" if top else "drop")
+                else:
+                    r.add("?")
             res[v] = r
-        if res.get("Hidden") == {"None"} and res.get("Default") == {"Some"} and res.get("ForceVisible") == {"Some"}:
+        if res.get("Hidden") == {"drop"} and res.get("Default") == {"keep"} and res.get("ForceVisible") == {"keep"}:
             ok_all = True
-        detail = {k: sorted(v) for k, v in res.items()}
+            detail = {k: sorted(v) for k, v in res.items()}
+        elif not ok_all:
+            detail = {k: sorted(v) for k, v in res.items()}
     rep.ob(R, "visible-filter", ok_all, {"filter": detail if clos else None})
     if not ok_all:
         rep.violation(R, "%s|filter" % gv.q, "the visible-field filter keeps/drops %s; it must drop exactly Hidden" % (detail if clos else "?"), gv.loc)
@@ -638,43 +646,80 @@ def rule_r5(F, rep):
                  "started from (super, `in super` and `+:` inside the field are resolved from that layer)")
     fn = F.fn("<%s>::find_object_field_thunk" % PROGRAM)
     FF = "<%s>::find_field" % OBJ
+    # the function, its closures, and (transitively) the helpers they call that did not exist on the reference tree
     bodies = [fn] + list(F.closures_of(fn))
+    k = 0
+    while k < len(bodies):
+        g = bodies[k]
+        k += 1
+        for bb, t in g.body.calls():
+            q = t["f"].get("r")
+            if q and t["f"].get("rlocal") and F.is_new_fn(q):
+                h = F.fn_opt(q)
+                if h is not None and h.body is not None and h not in bodies:
+                    bodies.append(h)
+                    bodies += [c for c in F.closures_of(h) if c not in bodies]
+    provs = {}
+
+    def P_of(g):
+        if g.q not in provs:
+            provs[g.q] = prov.Prov(F, g.body)
+        return provs[g.q]
+
+    def resolve(g, op, depth=0):
+        """origins of an operand of `g`, expressed in terms of find_object_field_thunk itself"""
+        if depth > 6 or op.get("k") not in ("move", "copy"):
+            return P_of(g).origins_op(op) if op.get("k") in ("move", "copy") else set()
+        out = set()
+        for o in P_of(g).origins_op(op):
+            if g is fn or o[0] not in ("arg", "field"):
+                out.add(o)
+                continue
+            if "::{closure#" in g.q.rsplit("::", 1)[-1] or g.q.endswith("}"):
+                # captured: whatever usize the parent puts into the closure
+                par_q = g.q.rsplit("::{closure#", 1)[0]
+                par = next((b for b in bodies if b.q == par_q), None)
+                if par is None:
+                    out.add(o)
+                    continue
+                for b2, si, st in par.body.assigns():
+                    rv = st["rv"]
+                    if rv["k"] == "agg" and rv["ak"] == "closure" and rv["d"] == g.q:
+                        for y in rv["xs"]:
+                            if "t" in y:
+                                ty = par.body.ty(y["t"])
+                                inner = par.body.ty(ty["t"])["s"] if ty["k"] == "ref" else ty["s"]
+                                if inner == "usize":
+                                    out |= resolve(par, y, depth + 1)
+            elif o[0] == "arg":
+                # parameter of a new helper: the argument at each call site
+                hit = False
+                for c in bodies:
+                    for bb, t in c.body.calls():
+                        if t["f"].get("r") == g.q and o[1] - 1 < len(t["xs"]):
+                            out |= resolve(c, t["xs"][o[1] - 1], depth + 1)
+                            hit = True
+                if not hit:
+                    out.add(o)
+            else:
+                out.add(o)
+        return out
     n = 0
-    # the local(s) holding find_field's index in the parent
-    P0 = prov.Prov(F, fn.body)
     for g in bodies:
-        P = prov.Prov(F, g.body)
         for bb, t in g.body.calls():
             nme = callee_name(t) or ""
             if nme.rsplit("::", 1)[-1] not in ("init_object_env", "get_object_layer_env"):
                 continue
             n += 1
             idx = [x for x in t["xs"] if "t" in x and g.body.ty(x["t"])["s"] == "usize"]
-            org = P.origins_op(idx[0]) if idx else set()
-            good = False
-            if g is fn:
-                good = bool(org) and all(o[0] == "call" and o[1] == FF for o in org)
-            else:
-                # captured: which parent operand fills the upvar
-                ups = [o for o in org if o[0] == "arg" or o[0] == "field"]
-                good = False
-                for b2, si, st in fn.body.assigns():
-                    rv = st["rv"]
-                    if rv["k"] == "agg" and rv["ak"] == "closure" and rv["d"] == g.q:
-                        porg = set()
-                        for y in rv["xs"]:
-                            if "t" in y:
-                                ty = fn.body.ty(y["t"])
-                                inner = fn.body.ty(ty["t"])["s"] if ty["k"] == "ref" else ty["s"]
-                                if inner == "usize":
-                                    porg |= P0.origins_op(y)
-                        good = bool(porg) and all(o[0] == "call" and o[1] == FF for o in porg)
+            org = resolve(g, idx[0]) if idx else set()
+            good = bool(org) and all(o[0] == "call" and o[1] == FF for o in org)
             rep.ob(R, "%s|%s" % (g.q.rsplit("::", 1)[-1], nme.rsplit("::", 1)[-1]), good)
             if not good:
                 rep.violation(R, "find_object_field_thunk|%s|layer-index" % nme.rsplit("::", 1)[-1],
                               "find_object_field_thunk hands %s a layer index that is not the one returned by find_field: fields "
-                              "found in a deeper layer would resolve super/self-layer lookups from the wrong layer"
-                              % nme.rsplit("::", 1)[-1], g.body.span(t["sp"]))
+                              "found in a deeper layer would resolve super/self-layer lookups from the wrong layer (origins: %s)"
+                              % (nme.rsplit("::", 1)[-1], sorted(map(str, org))[:3]), g.body.span(t["sp"]))
     rep.floor(R, n, 2, "environment constructions in find_object_field_thunk")
 
 
@@ -781,17 +826,18 @@ def rule_r7(F, rep):
 
 
 def run(F, rep, tier):
-    R1, R2 = rule_r1_r2_objects(F, rep)
-    rule_r2_clones(F, rep, R2)
-    rule_r3(F, rep)
-    rule_r3_merge(F, rep)
-    rule_r5(F, rep)
-    rule_r7(F, rep)
+    r12 = rep.attempt(rule_r1_r2_objects, F, rep)
+    if r12:
+        rep.attempt(rule_r2_clones, F, rep, r12[1])
+    rep.attempt(rule_r3, F, rep)
+    rep.attempt(rule_r3_merge, F, rep)
+    rep.attempt(rule_r5, F, rep)
+    rep.attempt(rule_r7, F, rep)
     from . import objflags
-    objflags.rule(F, rep, "C07.R2b")
+    rep.attempt(objflags.rule, F, rep, "C07.R2b")
     from . import visibility
-    visibility.rule(F, rep, "C07.R4")
-    visibility.rule_partition(F, rep, "C07.R6")
+    rep.attempt(visibility.rule, F, rep, "C07.R4")
+    rep.attempt(visibility.rule_partition, F, rep, "C07.R6")
     rep.assume("layer-index arithmetic (layer_i + depth + 1, super_layers.len() + 1), value-level associativity and "
                "self/super/$ resolution at nesting are not decided")
     rep.trust("Jsonnet specification: field visibility of inherited fields (the right-most explicit visibility wins; default inherits)")
